@@ -595,7 +595,7 @@ _LOOKUP_CASES = [
     ('ks / kilosecond', 'RAW 1/1 | '), ('pcs / pc', 'RAW 1/1 | '), ('hands / hand', 'RAW 1/1 | '), ('mm / (milli m)', 'RAW 1/1 | '),
     # the reply's value; under which name the target is shown is the canonical-name sweep's business (any name that denotes the same)
     ('1 at -> dat', 'RAW 10/1 | '), ('1 micron -> mm', 'RAW 1/1000 | '),
-    ('dam / (deca m)', 'RAW 1/1 | '), ('min / (60 s)', 'RAW 1/1 | '), ('1 m', '1 meter (length)'),
+    ('dam / (deca m)', 'RAW 1/1 | '), ('min / (60 s)', 'RAW 1/1 | '), ('1 m', 'RAW 1/1 | m:1'),
     ('yoctodecillion / (yocto decillion)', 'RAW 1/1 | '), ('yoctodecillions / (yocto decillion)', 'RAW 1/1 | '), ('ym / (yocto m)', 'RAW 1/1 | '),
     ('daA / (deci aA)', 'RAW 1/1 | '), ('1 kclick / (1000 click)', 'RAW 1/1 | '),
 ]
@@ -1310,6 +1310,11 @@ def _loader_cases():
     return c
 
 
+def _has_raw(so, v):
+    """some reply in the output has the raw value v (`n/d`): the value, not the way it is printed"""
+    return any(l.startswith('RAW %s |' % v) for l in so.splitlines())
+
+
 def _loader_run(text, queries, timeout=30):
     rc, so, se, dt = run([QUERY_BIN, '--defs', text] + queries, timeout=timeout)
     return rc, so, se
@@ -1326,28 +1331,28 @@ def _loader_witness():
         if isinstance(kind, tuple):
             extra = kind[1]
             kind = 'any'
-        rc, so, se = _loader_run(text, (['2 km -> m', 'zgood', 'zalso'] if kind == 'partial' else (['2 km -> m', 'zzdouble -> m', 'zweight -> m'] if kind == 'shadow' else ['2 km -> m'])) + extra)
+        rc, so, se = _loader_run(text, (['2 km -> m', 'zgood -> m', 'zalso -> m'] if kind == 'partial' else (['2 km -> m', 'zzdouble -> m', 'zweight -> m'] if kind == 'shadow' else ['2 km -> m'])) + extra)
         first = ([l for l in so.splitlines() if l.startswith('load_definitions:')] or [''])[0]
         if rc == 124:
             return (text, 'loading does not return within 30 s')
         if rc not in (0, 1) or 'PANIC' in so or not first.startswith('load_definitions:'):
             return (text, 'loading aborts: status %s %s' % (rc, one_line(se or so, 200)))
-        if '2000 meter' not in so:
+        if not _has_raw(so, '2000/1'):
             return (text, 'after loading, `2 km -> m` no longer answers 2000 meter: %s' % one_line(so, 200))
         if kind == 'cycle' and not any(w in first.lower() for w in ('cycle', 'cyclic', 'circular', 'recursi', 'itself')):
             return (text, 'the dependency cycle is not reported: %s' % one_line(first, 200))
         if kind == 'partial':
             if 'Err(' not in first or 'znothing' not in first:
                 return (text, 'the unresolved name is not reported: %s' % one_line(first, 200))
-            if '3 meter' not in so or '6 meter' not in so:
+            if not _has_raw(so, '3/1') or not _has_raw(so, '6/1'):
                 return (text, 'definitions that did load do not answer: %s' % one_line(so, 300))
         if kind == 'shadow':
-            if '20 meter' not in so or '10 meter' not in so:
+            if not _has_raw(so, '20/1') or not _has_raw(so, '10/1'):
                 return (text, 'a property of a rejected substance shadows the unit of the same name: %s' % one_line(so, 300))
         return None
     for dates in ('ann\u00e9e-monthnum-fullday', 'fullyear-monthnum-fullday \u00fcber', "'lit\u00e9ral' fullyear", 'fullyear[-monthnum[-fullday]]', '[[[', ']', "'unterminated", 'x\u0301y', '\u65e5\u672c monthnum'):
         rc, so, se, dt = run([QUERY_BIN, '--dates', dates, '#2020-01-01#', '2 km -> m'], timeout=20)
-        if rc == 124 or rc not in (0, 1) or 'PANIC' in so or '2000 meter' not in so:
+        if rc == 124 or rc not in (0, 1) or 'PANIC' in so or not _has_raw(so, '2000/1'):
             return {'replayer': 'loader', 'input': {'date_patterns': dates, 'expected': 'the pattern file loads (or is refused) and the context still answers'}, 'output': one_line(so + se, 300),
                     'why': 'date pattern text %r: %s' % (dates, 'loading does not return within 20 s' if rc == 124 else one_line(so + se, 200)), 'cmd': '%s --dates %r %r' % (QUERY_BIN, dates, '2 km -> m')}
     # definitions loaded one after another: a later load may redefine a unit in terms of one of its own aliases; each load is
@@ -1359,7 +1364,7 @@ def _loader_witness():
         qs = ['2 km -> m', '3 zca', '3 zcb -> zca', 'zca', 'zcb', '3 kzcb -> kzca', 'units for zca', 'zcc', '3 zca -> zcc']
         rc, so, se, dt = run([QUERY_BIN, '--defs', first_text, '--defs', second] + qs, timeout=30)
         answered = so.count('\n> ') + (1 if so.startswith('> ') else 0)
-        if rc == 124 or rc not in (0, 1) or 'PANIC' in so or '2000 meter' not in so or answered < len(qs):
+        if rc == 124 or rc not in (0, 1) or 'PANIC' in so or not _has_raw(so, '2000/1') or answered < len(qs):
             why = 'queries do not return within 30 s' if rc == 124 else ('status %s, %d of %d queries answered: %s' % (rc, answered, len(qs), one_line((se or so)[-300:], 200)))
             return {'replayer': 'loader', 'input': {'definitions': first_text, 'second_load': second, 'expected': 'both loads return and the context still answers'}, 'output': one_line(so + se, 300),
                     'why': 'definitions %r then %r: %s' % (first_text, second, why), 'cmd': '%s --defs %r --defs %r %s' % (QUERY_BIN, first_text, second, ' '.join(repr(q) for q in qs))}
